@@ -289,11 +289,13 @@ class Splitter:
                 resume_index = None
                 try:
                     # Start new block parsing
-                    if m_val.startswith("@comment"):
+                    # (the mark may end in blanks; `@commentary` or `@stringent` are entry types)
+                    block_type = m_val.rstrip()
+                    if block_type == "@comment":
                         library.add(self._handle_explicit_comment())
-                    elif m_val.startswith("@preamble"):
+                    elif block_type == "@preamble":
                         library.add(self._handle_preamble())
-                    elif m_val.startswith("@string"):
+                    elif block_type == "@string":
                         library.add(self._handle_string(m))
                     else:
                         library.add(self._handle_entry(m, m_val))
